@@ -152,16 +152,20 @@ theorem cart_any_order_full_false :
     the element's tag), then the nested combinator emits, schema by schema up to the order of the entries,
     exactly one combination `(κ, element of every item with an ancestor tag)` per complete tag `κ` of `D`.
 
-    What is MISSING for the full `nested_any_order`: (1) that the derived stream of a well-formed nested input
-    is well-formed and, up to the order of the entries inside the inner schemas, the same multiset for every
-    arrival order (follows informally from `dot_any_order` / `cart_any_order` for the inner combinator, needs a
-    parametricity lemma of the closed form); (2) absence of exceptions for the nested run (inner: by the flat
-    theorems; outer: `dotElems_any_order`). Both are covered by the correspondence check and the monitor only. -/
+    If moreover no inner combinator raises (`InnerOK`), the nested run raises nothing.
+
+    This is the general (any item list) but conditional form; the hypotheses are DISCHARGED from well-formedness of the
+    input stream for the two trees the CWL translator builds in `nested_cart_any_order` / `nested_dot_any_order`
+    below. Still open: an inner cartesian product of depth ≥ 2 (its schemas are not admissible elements: the members
+    carry different tags) and several inner combinators — covered by the correspondence check and the monitor only. -/
 theorem nested_any_order_partial (items : List Item) (es : List Ev) (D : List CF.Ev)
     (hD : (derived items es []).Perm D) (hwf : CF.WF items.length D) (hok : ∀ x ∈ D, ElemOK x.2) :
+    (InnerOK items es [] → (runNested items es).err = none) ∧
     ∃ N, EmRel (runNested items es).out N ∧ N.Perm (specE items.length D) := by
-  rw [runNested_out]
-  exact (dotElems_any_order D _ hwf hok hD).2
+  have h := dotElems_any_order D _ hwf hok hD
+  refine ⟨fun hin => ?_, ?_⟩
+  · rw [runNested_err items es hin]; exact h.1
+  · rw [runNested_out]; exact h.2
 
 /-- non-vacuity: `dot[cart₁[p0, p1], p2]` with two tokens on p0 and p1 and the broadcast token `0` on p2: the derived
     stream (four inner schemas tagged `0.i.j`, one token) is well formed and admissible, four combinations are
